@@ -91,6 +91,10 @@ MUTANTS += [
     dict(id='c14-undo-f8-fix', props=['C14'], file=EXT,
          old='abserr = max(6.0 * abs(result - epstab[0]), 5.0 * _EPS * abs(result))',
          new='abserr = 6.0 * abs(result - epstab[0])'),
+    dict(id='c14-undo-nan-fix', props=['C14'], file=EXT,
+         old='any_converged = not epsinf > 1e-4  # (a nan from inf - inf is irregular too)', new='any_converged = epsinf <= 1e-4'),
+    dict(id='c14-epsalg-guard-1e-30', props=['C14'], file=EXT,
+         old='                if np.abs(delta) <= 1.0e-60:', new='                if np.abs(delta) <= 1.0e-30:'),
     dict(id='c14-epsalg-guard', props=['C14'], file=EXT,
          old='                if np.abs(delta) <= 1.0e-60:', new='                if np.abs(delta) <= 1.0e-6:'),
 ]
